@@ -300,15 +300,11 @@ def monitorC36 : Case → String → String
           else if mergeable c.merge b r rest then
             let first := (stepReq b r).2
             if first.isSuccess then
-              let s1 := (stepReq b r).1
-              let ns := noShrink s1 rest
-              let an := ackAnchored s1 r.ents.isEmpty rest
+              -- `merge_equiv` (full strength since fix F50): log, term, commit index, ackEquiv
               let v := v.check true (after.ents == sq.1.log.ents) "merge-log-differs"
               let v := v.check true (o.term == sq.1.term) "merge-term-differs"
-              let v := v.check ns (o.commit == sq.1.commit) "merge-commit-differs"
-              let v := v.check an (ackEquiv o.acks sq.2) "merge-ack-differs"
-              -- outside the hypotheses of `merge_equiv` (a tail behind the chain): `MergeEquivStatement`
-              v.check (!(ns && an)) (o.commit == sq.1.commit && ackEquiv o.acks sq.2) "merge-differs-stale-tail"
+              let v := v.check true (o.commit == sq.1.commit) "merge-commit-differs"
+              v.check true (ackEquiv o.acks sq.2) "merge-ack-differs"
             else
               -- first request rejected: every sender gets that rejection, state as after that one request
               let s1 := stepReq b r
@@ -330,12 +326,15 @@ def monitorC07 : Case → String → String
         | [(r, _)], [a] =>
           let after := canonLog o.ents b.log.pIdx b.log.pTerm
           let acc := a.isSuccess
-          -- follower_commit_le_last: a commit index that was (re)computed does not exceed the log
-          let v := v.check (acc && decide (r.commit > b.commit)) (decide (o.commit ≤ after.lastIdx)) "commit-beyond-log"
-          let v := v.check (acc && decide (r.commit > b.commit)) (o.commit == min r.commit after.lastIdx) "commit-not-min"
-          let v := v.check (!acc || decide (r.commit ≤ b.commit)) (o.commit == b.commit) "commit-changed-without-cause"
-          -- monotone as long as the log still covers the old commit index
-          let v := v.check (acc && decide (b.commit ≤ after.lastIdx)) (decide (b.commit ≤ o.commit)) "commit-regressed"
+          -- follower_commit_eq / follower_commit_unchanged: max(commit, min(leader_commit, prev + len))
+          let v := v.check acc (o.commit == max b.commit (min r.commit (r.prev + r.ents.length))) "commit-not-min-of-covered"
+          let v := v.check (!acc) (o.commit == b.commit) "commit-changed-without-cause"
+          -- follower_commit_mono (unconditional)
+          let v := v.check true (decide (b.commit ≤ o.commit)) "commit-regressed"
+          -- follower_commit_le_last
+          let v := v.check (acc && b.log.wf && segOK b.log && r.contig && termsMono r.ents &&
+                            (!r.ents.isEmpty || decide (r.prev ≤ b.log.lastIdx)))
+                     (decide (o.commit ≤ max b.commit after.lastIdx)) "commit-beyond-log"
           match c.ldr with
           | none => v
           | some ldr =>
@@ -344,10 +343,8 @@ def monitorC07 : Case → String → String
                        r.ents.all (fun e => findE ldr e.index == some e) && logMatching b.log.ents ldr &&
                        agreeRange b.log.ents ldr b.log.pIdx r.prev
             let v := v.check hyp (agreeRange after.ents ldr b.log.pIdx (r.prev + r.ents.length)) "accepted-prefix-mismatch"
-            -- TailOK
-            let tailOK := decide (after.lastIdx ≤ r.prev + r.ents.length) || decide (r.commit ≤ r.prev + r.ents.length) ||
-                          agreeRange after.ents ldr b.log.pIdx after.lastIdx
-            v.check (hyp && tailOK && decide (r.commit > b.commit)) (agreeRange after.ents ldr b.log.pIdx o.commit) "commit-covers-mismatch"
+            -- follower_commit_matches (no tail hypothesis since fix F50)
+            v.check (hyp && decide (b.commit < o.commit)) (agreeRange after.ents ldr b.log.pIdx o.commit) "commit-covers-mismatch"
         | _, _ => v) {}
       v.render
   | _, _ => "skip"
